@@ -78,7 +78,7 @@ Definition dflows (md : mode) (nsts : list mk) : list (list (side * mk)) :=
   flows md nsts ++ (if md_dtls md then map (app cookie_round) (flows md nsts) else []).
 Definition legalb (md : mode) (l : list mk) : bool :=
   let nsts := if md_v13 md && negb (md_server md) then snd (strip_nst l) else [] in
-  existsb (fun f => cauth_okb md f && mks_eqb (dsquash md l) (received md f)) (dflows md nsts).
+  existsb (fun f => cauth_okb md f && mks_eqb l (received md f)) (dflows md nsts).
 
 (* ------------------------------------------------------------------ candidate completions of a log *)
 Definition canon (k : mk) : item :=
@@ -95,9 +95,8 @@ Fixpoint is_prefix (a b : list mk) : bool :=
   end.
 (* for a log that already holds its final hello: every legal sequence of its mode that extends it *)
 Definition ext_known (md : mode) (l : list item) : list (list item) :=
-  let mine := dsquash md (kinds l) in
   flat_map (fun f => let ks := received md f in
-                     if cauth_okb md f && is_prefix mine ks then [map canon (skipn (length mine) ks)] else [])
+                     if cauth_okb md f && is_prefix (kinds l) ks then [map canon (skipn (length l) ks)] else [])
            (dflows md []).
 (* for a log without its final hello: one plain handshake of the configured kind *)
 Definition ext_fresh (c : cfg) : list item :=
@@ -133,10 +132,12 @@ Definition types : list Z :=
    S_START; S_RECVD_CH; c_SSL_HS_TLS_1_3_NEGOTIATED; h_SSL_HS_TLS_1_3_WAIT_FLIGHT_2; S_WAIT_EOED; S_WAIT_CERT; S_WAIT_CV;
    S_WAIT_FIN; S_SEND_NST; S_WAIT_SH; S_WAIT_EE; S_WAIT_CERT_CR; S_SEND_FIN; h_SSL_HS_ALERT; h_SSL_HS_CCC; h_SSL_HS_NONE; DONE].
 Definition classes : list mcls := [MExp; MZero; MStale; MFut].
-Definition alphabet : list input :=
-  ICcs :: flat_map (fun t => flat_map (fun b => map (fun c => IHs (mkmsg t b c)) classes) bodies) types.
+(* TLS sessions do not look at the message_seq class ([step_cls_tls]): the expected one stands for all *)
+Definition alphabet (d : bool) : list input :=
+  ICcs :: flat_map (fun t => flat_map (fun b => map (fun c => IHs (mkmsg t b c)) (if d then classes else [MExp])) bodies) types.
 
-Definition item_of (i : input) : item := match i with ICcs => MCcs | IHs m => MHs m end.
+Definition item_of (i : input) : item := match i with ICcs => MCcs | IHs m => MHs (erase m) end.
+Definition expected_twin (i : input) : input := match i with ICcs => ICcs | IHs m => IHs (erase m) end.
 Definition body_eqb (a b : body) : bool :=
   match a, b with
   | BFail, BFail | BPlain, BPlain => true
@@ -194,7 +195,8 @@ Definition doneb (c : cfg) (s : hst) : bool :=
   | None => false
   end.
 Definition good (c : cfg) (s : hst) : bool :=
-  prefix_okb c (acc s) && existsb (Z.eqb (hs s)) types && (if Z.eqb (hs s) DONE then doneb c s else true) && negb (dtls s && v13 s).
+  prefix_okb c (acc s) && existsb (Z.eqb (hs s)) types && (if Z.eqb (hs s) DONE then doneb c s else true) && negb (dtls s && v13 s) &&
+  Bool.eqb (dtls s) (c_dtls c).
 
 (* equality of states (the outcomes that leave the session untouched are checked to do so) *)
 Definition hst_eqb (a b : hst) : bool :=
@@ -204,7 +206,8 @@ Definition hst_eqb (a b : hst) : bool :=
   Bool.eqb (lastccs a) (lastccs b) && Bool.eqb (usingpsk a) (usingpsk b) && Bool.eqb (hrr a) (hrr b) && Bool.eqb (early a) (early b) &&
   Bool.eqb (tickkeys a) (tickkeys b) && Bool.eqb (gotcr a) (gotcr b) && Bool.eqb (dtls a) (dtls b) && Bool.eqb (cookie a) (cookie b) &&
   items_eqb (acc a) (acc b) && tents_eqb (tr a) (tr b) && tents_eqb (snap a) (snap b).
-Definition not_expected (i : input) : bool := match i with ICcs => true | IHs m => negb (mcls_eqb (m_cls m) MExp) end.
+Definition not_expected (i : input) : bool := match i with ICcs => false | IHs m => negb (mcls_eqb (m_cls m) MExp) end.
+Definition droppable (i : input) : bool := match i with ICcs => true | IHs m => negb (mcls_eqb (m_cls m) MExp) end.
 
 Definition fatal_out (o : out) : bool := match o with OFatal _ | OFail => true | _ => false end.
 
@@ -220,15 +223,18 @@ Fixpoint explore (n : nat) (c : cfg) (s : hst) : bool :=
           negb (err s') && good c s' && items_eqb (acc s') (acc s ++ [item_of i]) &&
           (* a Finished is never accepted on an unprotected <= 1.2 read side *)
           (if is_fin_typ i && negb (v13 s) then rsec s else true) &&
-          (if Z.eqb (hs s') DONE then is_fin_true i && tents_eqb (snap s') (tr s) else explore n' c s')
-      | OIgnore => match i with ICcs => v13 s | _ => false end
+          (* a message accepted although its message_seq class is not "expected" (TLS: the class is not looked at; DTLS: message_seq 0)
+             leaves exactly the state its expected twin leaves: that one is explored *)
+          (if not_expected i then hst_eqb s' (fst (step s (expected_twin i))) && (match snd (step s (expected_twin i)) with OAccept _ => true | _ => false end)
+           else if Z.eqb (hs s') DONE then is_fin_true i && tents_eqb (snap s') (tr s) else explore n' c s')
+      | OIgnore => match i with ICcs => (v13 s || (dtls s && lastccs s)) && hst_eqb s s' | _ => false end
       (* DTLS: dropped, session untouched - a ChangeCipherSpec (no message_seq) or a message whose message_seq is not the expected one *)
-      | ODrop _ => dtls s && not_expected i && hst_eqb s s'
+      | ODrop _ => dtls s && droppable i && hst_eqb s s'
       (* DTLS server: cookie-less ClientHello answered statelessly; the log can still become legal (optional cookie exchange) *)
       | OHvr => dtls s && hst_eqb s s' && prefix_okb c (acc s ++ [item_of i])
       | OWarn _ => false
       | ORefuse => false
-      end) alphabet
+      end) (alphabet (c_dtls c))
   end.
 
 Definition all_cfgs : list cfg :=
@@ -334,8 +340,13 @@ Proof.
   unfold legalb. intro H. apply existsb_exists in H. destruct H as [f [Hin H]].
   apply andb_prop in H. destruct H as [Hc He]. apply mks_eqb_eq in He.
   exists f. split; [|split; [apply cauth_okb_sound; exact Hc | exact He]].
-  eapply flows_sound; [|exact Hin].
-  destruct (md_v13 md && negb (md_server md)); [apply strip_nst_tail | constructor].
+  assert (Hn : Forall (fun k => k = KHs NST) (if md_v13 md && negb (md_server md) then snd (strip_nst l) else []))
+    by (destruct (md_v13 md && negb (md_server md)); [apply strip_nst_tail | constructor]).
+  unfold dflows in Hin. apply in_app_or in Hin. destruct Hin as [Hin | Hin].
+  - left. eapply flows_sound; [exact Hn | exact Hin].
+  - destruct (md_dtls md) eqn:D; [|destruct Hin]. right. split; [exact D|].
+    apply in_map_iff in Hin. destruct Hin as [f0 [Hf Hin]]. exists f0. split; [|symmetry; exact Hf].
+    eapply flows_sound; [exact Hn | exact Hin].
 Qed.
 
 Lemma prefix_okb_sound c l : prefix_okb c l = true -> prefix_ok c l.
@@ -348,13 +359,19 @@ Qed.
 (* ================================================================== from the alphabet to all inputs *)
 Lemma bodies_all b : In b bodies.
 Proof.
-  destruct b as [| [] [] [] [] [] | [] [] [] | [] |]; unfold bodies; cbn; repeat (try (left; reflexivity); right).
+  destruct b as [| [] [] [] [] [] | [] [] [] | [] | |]; unfold bodies; cbn; repeat (try (left; reflexivity); right).
 Qed.
 
-Lemma in_alphabet i : match i with ICcs => True | IHs m => In (m_typ m) types end -> In i alphabet.
+Lemma in_alphabet i : match i with ICcs => True | IHs m => In (m_typ m) types end -> In i (alphabet true).
 Proof.
-  destruct i as [|[t b]]; intro H; unfold alphabet; [left; reflexivity | right].
-  apply in_flat_map. exists t. split; [exact H|]. apply (in_map (fun b0 => IHs (mkmsg t b0))). apply bodies_all.
+  destruct i as [|[t b c]]; intro H; unfold alphabet; [left; reflexivity | right].
+  apply in_flat_map. exists t. split; [exact H|]. apply in_flat_map. exists b. split; [apply bodies_all|].
+  apply (in_map (fun c0 => IHs (mkmsg t b c0))). destruct c; cbn; tauto.
+Qed.
+Lemma in_alphabet_tls m : In (m_typ m) types -> In (IHs (erase m)) (alphabet false).
+Proof.
+  destruct m as [t b c]. intro H. unfold alphabet, erase. cbn [m_typ m_body]. right.
+  apply in_flat_map. exists t. split; [exact H|]. apply in_flat_map. exists b. split; [apply bodies_all|]. left. reflexivity.
 Qed.
 
 Lemma types_mem x : existsb (Z.eqb x) types = true -> In x types.
@@ -373,35 +390,79 @@ Ltac kill_t Hn :=
              end
          end.
 
-(* a message whose type is none of the SSL_HS_* values is refused by both gates *)
+(* a TLS session does not look at the message_seq class *)
+Lemma handler12_cls s t b c c' : handler12 s (mkmsg t b c) = handler12 s (mkmsg t b c').
+Proof. unfold handler12. cbn [m_body]. reflexivity. Qed.
+Lemma step12_cls_tls s t b c : dtls s = false -> step12 s (mkmsg t b c) = step12 s (mkmsg t b MExp).
+Proof.
+  intro D. unfold step12, gate12d. cbn [m_typ m_cls]. rewrite D. cbn [negb].
+  destruct (gate12 s t); reflexivity.
+Qed.
+Lemma step_cls_tls s m : dtls s = false -> step s (IHs m) = step s (IHs (erase m)).
+Proof.
+  intro D. destruct m as [t b c]. unfold erase. cbn [m_typ m_body]. unfold step.
+  destruct (err s); [reflexivity|]. destruct (v13 s).
+  - unfold step13, accept, erase. cbn [m_typ m_body].
+    rewrite (step12_cls_tls (set_v13 (set_hs s CH) false) t b c) by (destruct s; exact D).
+    rewrite (step12_cls_tls (set_v13 (set_hs s SH) false) t b c) by (destruct s; exact D).
+    reflexivity.
+  - apply step12_cls_tls. exact D.
+Qed.
+
+(* a message whose type is none of the SSL_HS_* values is refused by both gates - or, on a DTLS session, dropped for its message_seq *)
 Lemma step_unknown s m :
   err s = false -> In (hs s) types -> ~ In (m_typ m) types ->
-  step s (IHs m) = (set_err s true, OFatal UNEXPECTED).
+  step s (IHs m) = (set_err s true, OFatal UNEXPECTED) \/
+  (dtls s = true /\ v13 s = false /\ droppable (IHs m) = true /\ exists r, step s (IHs m) = (s, ODrop r)).
 Proof.
-  intros He Hh Hn. destruct m as [t b]. cbn [m_typ] in Hn.
+  intros He Hh Hn. destruct m as [t b c]. cbn [m_typ] in Hn.
   assert (Hth : eqb t (hs s) = false).
   { unfold eqb. apply Z.eqb_neq. intro E. subst. contradiction. }
-  unfold step. rewrite He. destruct (v13 s).
-  - unfold step13. cbn [m_typ]. unfold check13. kill_t Hn. cbn.
+  unfold step. rewrite He. destruct (v13 s) eqn:V.
+  - left. unfold step13. cbn [m_typ]. unfold check13. kill_t Hn. cbn.
     destruct (server s); cbn; reflexivity.
-  - unfold step12. cbn [m_typ]. unfold gate12. rewrite Hth. kill_t Hn. cbn.
-    destruct (server s); cbn; destruct (eqb (hs s) CSTAT); cbn; try reflexivity;
-      destruct (psk s); cbn; reflexivity.
+  - unfold step12. cbn [m_typ m_cls]. unfold gate12d. destruct (dtls s) eqn:D; cbn [negb].
+    + kill_t Hn. rewrite !Bool.andb_false_l. replace (if server s then false else false) with false by (destruct (server s); reflexivity).
+      destruct c.
+      * left. unfold gate12g, dtls_tail. rewrite Hth. kill_t Hn. cbn.
+        destruct (server s); cbn; destruct (eqb (hs s) CSTAT); cbn; try reflexivity; destruct (psk s); cbn; reflexivity.
+      * unfold gate12g, dtls_tail. rewrite Hth. kill_t Hn. cbn.
+        destruct (server s); cbn; destruct (eqb (hs s) CSTAT); cbn; try (left; reflexivity);
+          destruct (psk s); cbn; right; (split; [reflexivity | split; [reflexivity | split; [reflexivity | eexists; reflexivity]]]).
+      * right. split; [reflexivity | split; [reflexivity | split; [reflexivity | eexists; reflexivity]]].
+      * right. split; [reflexivity | split; [reflexivity | split; [reflexivity | eexists; reflexivity]]].
+    + left. unfold gate12, gate12g. rewrite Hth. kill_t Hn. cbn.
+      destruct (server s); cbn; destruct (eqb (hs s) CSTAT); cbn; try reflexivity;
+        destruct (psk s); cbn; reflexivity.
 Qed.
 
 (* ================================================================== SSL_HS_DONE is absorbing *)
-Lemma done_step s i s' o :
+(* outcomes that are neither fatal nor an advance: the session is left exactly as it was *)
+Definition quiet (c : cfg) (s : hst) (i : input) (o : out) : Prop :=
+  (* ChangeCipherSpec: the TLS 1.3 middlebox one; DTLS: the one of a retransmitted flight (a ChangeCipherSpec was just taken) *)
+  (o = OIgnore /\ i = ICcs /\ (v13 s = true \/ (dtls s = true /\ lastccs s = true))) \/
+  (* DTLS: a ChangeCipherSpec out of place (no message_seq: reordering cannot be told apart) or a handshake message whose
+     message_seq is not the expected one (retransmission / arrived early) is dropped *)
+  (dtls s = true /\ droppable i = true /\ exists r, o = ODrop r) \/
+  (* a renegotiation request on a completed session gets the no_renegotiation warning *)
+  (o = OWarn c_SSL_ALERT_NO_RENEGOTIATION /\ hs s = DONE /\ v13 s = false /\
+   exists m, i = IHs m /\ m_typ m = (if server s then CH else HREQ)) \/
+  (* DTLS server: a cookie-less ClientHello is answered with HelloVerifyRequest and forgotten; the (empty) log stays legal *)
+  (o = OHvr /\ dtls s = true /\ prefix_ok c (acc s ++ [item_of i])).
+
+Lemma done_step c s i s' o :
   step s i = (s', o) -> err s = false -> hs s = DONE ->
   (fatal_out o = true /\ err s' = true) \/
-  ((o = OIgnore /\ i = ICcs /\ v13 s = true \/
-    o = OWarn c_SSL_ALERT_NO_RENEGOTIATION /\ v13 s = false /\ exists m, i = IHs m /\ m_typ m = (if server s then CH else HREQ)) /\ s' = s) \/
+  (quiet c s i o /\ s' = s) \/
   (exists m, i = IHs m /\ m_typ m = NST /\ v13 s = true /\ server s = false /\ s' = accept s m false /\ o = OAccept false).
 Proof.
-  intros Hs He Hh. destruct s as [sv vv h rs ws er re ca pk dh tk st lc up hr ea tkk gc ac trr sn]. simpl in He, Hh. subst.
-  destruct i as [|[t b]].
+  intros Hs He Hh. destruct s as [sv vv h rs ws er re ca pk dh tk st lc up hr ea tkk gc dt ck ac trr sn]. simpl in He, Hh. subst.
+  destruct i as [|[t b cl]].
   - unfold step in Hs. cbn [err v13] in Hs. destruct vv.
-    + inversion Hs; subst. right; left. split; [left; repeat split; reflexivity | reflexivity].
-    + unfold ccs12 in Hs. cbn in Hs. destruct pk; cbn in Hs; inversion Hs; subst; left; split; reflexivity.
+    + inversion Hs; subst. right; left. split; [left; repeat split; auto | reflexivity].
+    + unfold ccs12 in Hs. cbn in Hs. destruct dt.
+      * inversion Hs; subst. right; left. split; [right; left; repeat split; eauto | reflexivity].
+      * destruct pk; cbn in Hs; inversion Hs; subst; left; split; reflexivity.
   - unfold step in Hs. cbn [err v13] in Hs. destruct vv.
     + (* TLS 1.3 *)
       unfold step13 in Hs. cbn [m_typ m_body server hs] in Hs. unfold check13 in Hs.
@@ -415,7 +476,6 @@ Proof.
       replace (eqb DONE S_WAIT_FIN) with false in Hs by reflexivity.
       replace (eqb DONE DONE) with true in Hs by reflexivity.
       rewrite !Bool.andb_false_r in Hs. cbn [orb] in Hs. rewrite ?Bool.andb_false_r in Hs. rewrite ?Bool.andb_true_r in Hs.
-      idtac.
       destruct sv; cbn [negb andb] in Hs.
       * inversion Hs; subst. left; split; reflexivity.
       * destruct (eqb t NST) eqn:E; cbn [negb] in Hs.
@@ -430,32 +490,69 @@ Proof.
            replace (eqb NST EOED) with false in Hs by reflexivity.
            destruct b; cbn [body_ok negb] in Hs; inversion Hs; subst;
              try (left; split; reflexivity).
-           right; right. exists (mkmsg NST BPlain). repeat split; reflexivity.
+           right; right. exists (mkmsg NST BPlain cl). repeat split; reflexivity.
         -- inversion Hs; subst. left; split; reflexivity.
-    + (* TLS <= 1.2 *)
-      unfold step12 in Hs. cbn [m_typ] in Hs. unfold gate12 in Hs. cbn [server hs rsec wsec tick psk dhe cauth] in Hs.
-      destruct (eqb t DONE) eqn:E.
-      * unfold eqb in E. apply Z.eqb_eq in E. subst t.
-        destruct sv; cbn in Hs; unfold handler12 in Hs; cbn in Hs; inversion Hs; subst; left; split; reflexivity.
-      * replace (eqb DONE SHD) with false in Hs by reflexivity.
-        replace (eqb DONE SH) with false in Hs by reflexivity.
-        replace (eqb DONE FIN) with false in Hs by reflexivity.
-        replace (eqb DONE CSTAT) with false in Hs by reflexivity.
-        replace (eqb DONE SKE) with false in Hs by reflexivity.
-        replace (eqb DONE DONE) with true in Hs by reflexivity.
-        destruct sv.
-        -- destruct (eqb t CH) eqn:E1.
-           ++ cbn in Hs. inversion Hs; subst. right; left. split; [|reflexivity]. right.
-              split; [reflexivity|]. split; [reflexivity|]. exists (mkmsg t b). split; [reflexivity|].
-              unfold eqb in E1. apply Z.eqb_eq in E1. exact E1.
-           ++ destruct (eqb t HREQ), (eqb t CREQ), (eqb t NST), (eqb t SHD), pk, dh; cbn in Hs;
-                inversion Hs; subst; left; split; reflexivity.
-        -- destruct (eqb t HREQ) eqn:E1.
-           ++ cbn in Hs. inversion Hs; subst. right; left. split; [|reflexivity]. right.
-              split; [reflexivity|]. split; [reflexivity|]. exists (mkmsg t b). split; [reflexivity|].
-              unfold eqb in E1. apply Z.eqb_eq in E1. exact E1.
-           ++ destruct (eqb t CH), (eqb t CREQ), (eqb t NST), (eqb t SHD), pk, dh; cbn in Hs;
-                inversion Hs; subst; left; split; reflexivity.
+    + (* TLS <= 1.2 and DTLS *)
+      unfold step12 in Hs. cbn [m_typ m_cls] in Hs. unfold gate12d, gate12 in Hs. cbn [server hs dtls] in Hs.
+      destruct (if sv then eqb t CH && eqb DONE DONE else eqb t HREQ && eqb DONE DONE) eqn:NR.
+      * (* renegotiation request *)
+        assert (Ht : t = (if sv then CH else HREQ)).
+        { replace (eqb DONE DONE) with true in NR by reflexivity. rewrite !Bool.andb_true_r in NR.
+          destruct sv; unfold eqb in NR; apply Z.eqb_eq in NR; exact NR. }
+        assert (Hs2 : (s', o) = ({| server := sv; v13 := false; hs := DONE; rsec := rs; wsec := ws; err := false; resumed := re; cauth := ca;
+                                   psk := pk; dhe := dh; tick := tk; status := st; lastccs := lc; usingpsk := up; hrr := hr; early := ea;
+                                   tickkeys := tkk; gotcr := gc; dtls := dt; cookie := ck; acc := ac; tr := trr; snap := sn |},
+                                 OWarn c_SSL_ALERT_NO_RENEGOTIATION)).
+        { destruct dt; cbn [negb] in Hs; unfold gate12g in Hs; cbn [server hs] in Hs; rewrite ?NR in Hs; symmetry; exact Hs. }
+        inversion Hs2; subst s' o. right; left. split; [|reflexivity].
+        right; right; left. split; [reflexivity|]. split; [reflexivity|]. split; [reflexivity|].
+        exists (mkmsg t b cl). split; [reflexivity|]. cbn [m_typ server]. exact Ht.
+      * destruct dt; cbn [negb] in Hs.
+        -- (* DTLS *)
+           destruct cl.
+           ++ (* expected message_seq *)
+              unfold gate12g, dtls_tail in Hs. cbn [server hs rsec wsec tick psk dhe cauth cookie] in Hs. rewrite NR in Hs.
+              destruct (eqb t DONE) eqn:E.
+              ** unfold eqb in E. apply Z.eqb_eq in E. subst t.
+                 destruct sv; cbn in Hs; unfold handler12 in Hs; cbn in Hs; inversion Hs; subst; left; split; reflexivity.
+              ** replace (eqb DONE SHD) with false in Hs by reflexivity.
+                 replace (eqb DONE SH) with false in Hs by reflexivity.
+                 replace (eqb DONE FIN) with false in Hs by reflexivity.
+                 replace (eqb DONE CSTAT) with false in Hs by reflexivity.
+                 replace (eqb DONE SKE) with false in Hs by reflexivity.
+                 replace (eqb DONE DONE) with true in Hs by reflexivity.
+                 destruct sv, (eqb t CH), (eqb t HREQ), (eqb t CREQ), (eqb t NST), (eqb t SHD), (eqb t HVR), pk, dh; cbn in Hs; cbn in NR;
+                   try discriminate; inversion Hs; subst; left; split; reflexivity.
+           ++ (* message_seq 0 *)
+              unfold gate12g, dtls_tail in Hs. cbn [server hs rsec wsec tick psk dhe cauth cookie] in Hs. rewrite NR in Hs.
+              destruct (eqb t DONE) eqn:E.
+              ** unfold eqb in E. apply Z.eqb_eq in E. subst t.
+                 destruct sv; cbn in Hs; unfold handler12 in Hs; cbn in Hs; inversion Hs; subst; left; split; reflexivity.
+              ** replace (eqb DONE SHD) with false in Hs by reflexivity.
+                 replace (eqb DONE SH) with false in Hs by reflexivity.
+                 replace (eqb DONE FIN) with false in Hs by reflexivity.
+                 replace (eqb DONE CSTAT) with false in Hs by reflexivity.
+                 replace (eqb DONE SKE) with false in Hs by reflexivity.
+                 replace (eqb DONE DONE) with true in Hs by reflexivity.
+                 destruct sv, (eqb t CH), (eqb t HREQ), (eqb t CREQ), (eqb t NST), (eqb t SHD), (eqb t HVR), pk, dh; cbn in Hs; cbn in NR;
+                   try discriminate; inversion Hs; subst;
+                   first [ left; split; reflexivity
+                         | right; left; split; [right; left; split; [reflexivity | split; [reflexivity | eexists; reflexivity]] | reflexivity] ].
+           ++ inversion Hs; subst. right; left. split; [right; left; split; [reflexivity | split; [reflexivity | eexists; reflexivity]] | reflexivity].
+           ++ inversion Hs; subst. right; left. split; [right; left; split; [reflexivity | split; [reflexivity | eexists; reflexivity]] | reflexivity].
+        -- (* TLS *)
+           unfold gate12g in Hs. cbn [server hs rsec wsec tick psk dhe cauth] in Hs. rewrite NR in Hs.
+           destruct (eqb t DONE) eqn:E.
+           ++ unfold eqb in E. apply Z.eqb_eq in E. subst t.
+              destruct sv; cbn in Hs; unfold handler12 in Hs; cbn in Hs; inversion Hs; subst; left; split; reflexivity.
+           ++ replace (eqb DONE SHD) with false in Hs by reflexivity.
+              replace (eqb DONE SH) with false in Hs by reflexivity.
+              replace (eqb DONE FIN) with false in Hs by reflexivity.
+              replace (eqb DONE CSTAT) with false in Hs by reflexivity.
+              replace (eqb DONE SKE) with false in Hs by reflexivity.
+              replace (eqb DONE DONE) with true in Hs by reflexivity.
+              destruct sv, (eqb t CH), (eqb t HREQ), (eqb t CREQ), (eqb t NST), (eqb t SHD), pk, dh; cbn in Hs; cbn in NR;
+                try discriminate; inversion Hs; subst; left; split; reflexivity.
 Qed.
 
 (* ================================================================== one step from an explored state *)
@@ -467,10 +564,13 @@ Proof.
            | H : Bool.eqb _ _ = true |- _ => apply Bool.eqb_prop in H
            end; subst; reflexivity.
 Qed.
+Lemma mcls_eqb_eq a b : mcls_eqb a b = true -> a = b.
+Proof. destruct a, b; cbn; try discriminate; reflexivity. Qed.
 Lemma item_eqb_eq a b : item_eqb a b = true -> a = b.
 Proof.
-  destruct a as [|[t1 b1]], b as [|[t2 b2]]; cbn; try discriminate; auto. intro H.
-  apply andb_prop in H. destruct H as [H1 H2]. apply Z.eqb_eq in H1. apply body_eqb_eq in H2. subst. reflexivity.
+  destruct a as [|[t1 b1 c1]], b as [|[t2 b2 c2]]; cbn; try discriminate; auto. intro H.
+  apply andb_prop in H. destruct H as [H H3]. apply andb_prop in H. destruct H as [H1 H2].
+  apply Z.eqb_eq in H1. apply body_eqb_eq in H2. apply mcls_eqb_eq in H3. subst. reflexivity.
 Qed.
 Lemma items_eqb_eq a : forall b, items_eqb a b = true -> a = b.
 Proof.
@@ -488,43 +588,116 @@ Qed.
 Definition live (c : cfg) (s : hst) : Prop :=
   err s = false /\ hs s <> DONE /\ good c s = true /\ exists n, explore n c s = true.
 
-Lemma good_hs c s : good c s = true -> In (hs s) types.
+Lemma good_parts c s : good c s = true ->
+  prefix_okb c (acc s) = true /\ In (hs s) types /\ (hs s = DONE -> doneb c s = true) /\ (dtls s = true -> v13 s = false) /\ dtls s = c_dtls c.
 Proof.
-  unfold good. intro H. apply andb_prop in H. destruct H as [H _]. apply andb_prop in H. destruct H as [_ H].
-  apply types_mem. exact H.
+  unfold good. intro H.
+  destruct (andb_prop _ _ H) as [H1 E]. destruct (andb_prop _ _ H1) as [H2 D]. destruct (andb_prop _ _ H2) as [H3 C].
+  destruct (andb_prop _ _ H3) as [A B].
+  split; [exact A|]. split; [apply types_mem; exact B|]. split.
+  - intro Hd. rewrite Hd in C. exact C.
+  - split; [|apply Bool.eqb_prop; exact E].
+    intro T. rewrite T in D. destruct (v13 s); [discriminate | reflexivity].
+Qed.
+Lemma good_hs c s : good c s = true -> In (hs s) types.
+Proof. intro H. apply good_parts in H. tauto. Qed.
+
+Lemma hst_eqb_eq a b : hst_eqb a b = true -> a = b.
+Proof.
+  destruct a, b. unfold hst_eqb. cbn. intro H.
+  repeat match type of H with _ && _ = true => let K := fresh "K" in apply andb_prop in H; destruct H as [H K] end.
+  repeat match goal with
+         | K : Bool.eqb _ _ = true |- _ => apply Bool.eqb_prop in K
+         | K : Z.eqb _ _ = true |- _ => apply Z.eqb_eq in K
+         | K : items_eqb _ _ = true |- _ => apply items_eqb_eq in K
+         | K : tents_eqb _ _ = true |- _ => apply tents_eqb_eq in K
+         end.
+  subst. reflexivity.
+Qed.
+
+Lemma twin_facts i : item_of (expected_twin i) = item_of i /\ is_fin_typ (expected_twin i) = is_fin_typ i /\
+                     is_fin_true (expected_twin i) = is_fin_true i /\ not_expected (expected_twin i) = false.
+Proof. destruct i as [|[t b c]]; cbn; repeat split; reflexivity. Qed.
+Lemma twin_in_alphabet d i : In i (alphabet d) -> In (expected_twin i) (alphabet d).
+Proof.
+  unfold alphabet. intros [H | H]; [subst; left; reflexivity | right].
+  apply in_flat_map in H. destruct H as [t [Ht H]]. apply in_flat_map in H. destruct H as [b [Hb H]].
+  apply in_map_iff in H. destruct H as [c0 [E _]]. subst i. cbn [expected_twin erase m_typ m_body].
+  apply in_flat_map. exists t. split; [exact Ht|]. apply in_flat_map. exists b. split; [exact Hb|].
+  apply (in_map (fun c1 => IHs (mkmsg t b c1))). destruct d; cbn; tauto.
+Qed.
+
+Definition accepted (c : cfg) (s : hst) (i : input) (s' : hst) (o : out) : Prop :=
+  exists r, o = OAccept r /\ err s' = false /\ good c s' = true /\ acc s' = acc s ++ [item_of i] /\
+            (is_fin_typ i = true -> v13 s = false -> rsec s = true) /\
+            ((hs s' = DONE /\ is_fin_true i = true /\ snap s' = tr s) \/
+             (err s' = false /\ hs s' <> DONE /\ good c s' = true /\ exists n, explore n c s' = true)).
+
+Lemma live_step_in c s i s' o n :
+  err s = false -> good c s = true -> explore (S n) c s = true -> In i (alphabet (c_dtls c)) -> step s i = (s', o) ->
+  (fatal_out o = true /\ err s' = true) \/ (quiet c s i o /\ s' = s) \/ accepted c s i s' o.
+Proof.
+  intros He Hg Hx Ha Hs. cbn [explore] in Hx. rewrite forallb_forall in Hx.
+  pose proof (Hx i Ha) as Hi. rewrite Hs in Hi.
+  destruct o as [d | | r | w | | rx | |].
+  - left; split; [reflexivity | exact Hi].
+  - left; split; [reflexivity | exact Hi].
+  - right; right.
+    destruct (andb_prop _ _ Hi) as [Hx1 KE]. destruct (andb_prop _ _ Hx1) as [Hx2 KD].
+    destruct (andb_prop _ _ Hx2) as [Hx3 KC]. destruct (andb_prop _ _ Hx3) as [KA KB].
+    apply Bool.negb_true_iff in KA. apply items_eqb_eq in KC.
+    destruct (not_expected i) eqn:NE.
+    + (* accepted with an unexpected message_seq class: same as its expected twin *)
+      destruct (andb_prop _ _ KE) as [KS KO]. apply hst_eqb_eq in KS.
+      pose proof (Hx _ (twin_in_alphabet _ _ Ha)) as Ht.
+      destruct (step s (expected_twin i)) as [st ot] eqn:Hst. cbn [fst snd] in KS, KO. subst st.
+      destruct ot; try discriminate.
+      destruct (twin_facts i) as [T1 [T2 [T3 T4]]]. rewrite T4 in Ht.
+      destruct (andb_prop _ _ Ht) as [Hy1 LE]. 
+      exists r. split; [reflexivity|]. split; [exact KA|]. split; [exact KB|]. split; [exact KC|]. split.
+      * intros F V. rewrite F, V in KD. exact KD.
+      * destruct (Z.eqb (hs s') DONE) eqn:D.
+        -- left. apply Z.eqb_eq in D. apply andb_prop in LE. destruct LE as [F T]. apply tents_eqb_eq in T. rewrite T3 in F. auto.
+        -- right. apply Z.eqb_neq in D. split; [exact KA|]. split; [exact D|]. split; [exact KB|]. exists n. exact LE.
+    + exists r. split; [reflexivity|]. split; [exact KA|]. split; [exact KB|]. split; [exact KC|]. split.
+      * intros F V. rewrite F, V in KD. exact KD.
+      * destruct (Z.eqb (hs s') DONE) eqn:D.
+        -- left. apply Z.eqb_eq in D. apply andb_prop in KE. destruct KE as [F T]. apply tents_eqb_eq in T. auto.
+        -- right. apply Z.eqb_neq in D. split; [exact KA|]. split; [exact D|]. split; [exact KB|]. exists n. exact KE.
+  - discriminate.
+  - right; left. destruct i as [|m]; [|discriminate].
+    destruct (andb_prop _ _ Hi) as [K1 K2]. apply hst_eqb_eq in K2. split; [|symmetry; exact K2].
+    left. split; [reflexivity|]. split; [reflexivity|].
+    destruct (v13 s); [left; reflexivity|]. cbn [orb] in K1. apply andb_prop in K1. right. exact K1.
+  - right; left. destruct (andb_prop _ _ Hi) as [K1 K3]. destruct (andb_prop _ _ K1) as [K0 K2]. apply hst_eqb_eq in K3.
+    split; [|symmetry; exact K3]. right; left. split; [exact K0|]. split; [exact K2|]. eexists; reflexivity.
+  - right; left. destruct (andb_prop _ _ Hi) as [K1 K3]. destruct (andb_prop _ _ K1) as [K0 K2]. apply hst_eqb_eq in K2.
+    split; [|symmetry; exact K2]. right; right; right. split; [reflexivity|]. split; [exact K0|]. apply prefix_okb_sound. exact K3.
+  - discriminate.
 Qed.
 
 Lemma live_step c s i s' o :
   live c s -> step s i = (s', o) ->
-  (fatal_out o = true /\ err s' = true) \/
-  (o = OIgnore /\ s' = s /\ i = ICcs /\ v13 s = true) \/
-  (exists r, o = OAccept r /\ err s' = false /\ good c s' = true /\ acc s' = acc s ++ [item_of i] /\
-             (is_fin_typ i = true -> v13 s = false -> rsec s = true) /\
-             ((hs s' = DONE /\ is_fin_true i = true /\ snap s' = tr s) \/ live c s')).
+  (fatal_out o = true /\ err s' = true) \/ (quiet c s i o /\ s' = s) \/ accepted c s i s' o.
 Proof.
   intros [He [Hd [Hg [n Hx]]]] Hs.
-  destruct (in_dec Z.eq_dec (match i with ICcs => 0 | IHs m => m_typ m end) types) as [Hin | Hout];
-    [| destruct i as [|m]; [exfalso; apply Hout; cbn; tauto |]].
-  2:{ rewrite (step_unknown s m He (good_hs c s Hg) Hout) in Hs. inversion Hs; subst. left; split; reflexivity. }
-  assert (Ha : In i alphabet) by (apply in_alphabet; destruct i; [exact I | exact Hin]).
-  destruct n as [|n]; [discriminate|]. cbn [explore] in Hx.
-  rewrite forallb_forall in Hx. specialize (Hx i Ha). rewrite Hs in Hx.
-  destruct o as [d | | r | w | |].
-  - left; split; [reflexivity | exact Hx].
-  - left; split; [reflexivity | exact Hx].
-  - right; right. exists r.
-    destruct (andb_prop _ _ Hx) as [Hx1 KE]. destruct (andb_prop _ _ Hx1) as [Hx2 KD].
-    destruct (andb_prop _ _ Hx2) as [Hx3 KC]. destruct (andb_prop _ _ Hx3) as [KA KB].
-    apply Bool.negb_true_iff in KA. apply items_eqb_eq in KC.
-    split; [reflexivity|]. split; [exact KA|]. split; [exact KB|]. split; [exact KC|]. split.
-    + intros F V. rewrite F, V in KD. exact KD.
-    + destruct (Z.eqb (hs s') DONE) eqn:D.
-      * left. apply Z.eqb_eq in D. apply andb_prop in KE. destruct KE as [F T]. apply tents_eqb_eq in T. auto.
-      * right. apply Z.eqb_neq in D. split; [exact KA|]. split; [exact D|]. split; [exact KB|]. exists n. exact KE.
-  - discriminate.
-  - right; left. destruct i as [|m]; [|discriminate].
-    unfold step in Hs. rewrite He in Hs. rewrite Hx in Hs. inversion Hs; subst. auto.
-  - discriminate.
+  destruct n as [|n]; [discriminate|].
+  destruct (good_parts c s Hg) as [_ [Hh [_ [Hv Hdt]]]].
+  destruct i as [|m].
+  - apply (live_step_in c s ICcs s' o n He Hg Hx); [left; reflexivity | exact Hs].
+  - destruct (in_dec Z.eq_dec (m_typ m) types) as [Hin | Hout].
+    + destruct (c_dtls c) eqn:CD.
+      * apply (live_step_in c s (IHs m) s' o n He Hg Hx); [rewrite CD; apply in_alphabet; exact Hin | exact Hs].
+      * (* TLS: the class is not looked at *)
+        rewrite CD in Hdt. rewrite (step_cls_tls s m Hdt) in Hs.
+        assert (Ha : In (IHs (erase m)) (alphabet (c_dtls c))) by (rewrite CD; apply in_alphabet_tls; exact Hin).
+        destruct (live_step_in c s (IHs (erase m)) s' o n He Hg Hx Ha Hs) as [F | [[Q E] | A]].
+        -- left. exact F.
+        -- exfalso. destruct Q as [[_ [Q _]] | [[Q _] | [[_ [Q _]] | [_ [Q _]]]]]; try discriminate; try congruence.
+        -- right; right. destruct A as [r A]. exists r. exact A.
+    + destruct (step_unknown s m He Hh Hout) as [U | [D [V [Dr [r U]]]]]; rewrite U in Hs; inversion Hs; subst.
+      * left; split; reflexivity.
+      * right; left. split; [|reflexivity]. right; left. split; [exact D|]. split; [exact Dr|]. eexists; reflexivity.
 Qed.
 
 (* ================================================================== the invariant of every run *)
